@@ -7,7 +7,6 @@ import (
 	"go/types"
 	"os"
 	"os/exec"
-	"path/filepath"
 	"sort"
 	"strings"
 	"sync"
@@ -33,6 +32,7 @@ type Result struct {
 	Replay    *ReplayInfo `json:"-"`
 	ScriptQF  string      `json:"-"`
 	Candidate bool        `json:"-"`
+	Timeout   int         `json:"-"` // per-function solver budget (contract directive `timeout N`), 0 = default
 }
 
 func (vc *VC) scriptHead() string {
@@ -104,8 +104,8 @@ func (vc *VC) obligations() []*Result {
 	// "unsat"; a "sat" there is only a candidate and is trusted only if it replays on the real code)
 	var headQF strings.Builder
 	for _, l := range strings.Split(head, "\n") {
-		if strings.HasPrefix(l, "(assert (forall") {
-			continue
+		if strings.HasPrefix(l, "(assert (forall") && !strings.Contains(l, "str.eq") {
+			continue // (the string-equality axioms of the encoding itself stay: they are cheap and pattern-driven)
 		}
 		headQF.WriteString(l + "\n")
 	}
@@ -190,95 +190,7 @@ func solveAll(rs []*Result, sec int, two bool, workers int) {
 		go func() {
 			defer wg.Done()
 			for i := range ch {
-				r := rs[i]
-				file := filepath.Join(dir, fmt.Sprintf("o%d.smt2", i))
-				os.WriteFile(file, []byte(r.Script), 0644)
-				var total int64
-				r.Status = "unknown"
-				if r.Class == "cover" {
-					// vacuity guard: only "unsat" (contradictory assumptions) matters; short budget
-					st, _, ms := runSolver(solvers[0], file, 3)
-					r.Status, r.Solver, r.Ms = st, solvers[0].name, ms
-					os.Remove(file)
-					continue
-				}
-				for _, sp := range solvers {
-					st, out, ms := runSolver(sp, file, sec)
-					total += ms
-					if st == "error" && r.Status == "unknown" {
-						r.Output += fmt.Sprintf("[%s] %s\n", sp.name, firstLines(out, 6))
-						continue
-					}
-					if st == "unsat" {
-						if r.Status == "unsat" {
-							r.Second = sp.name
-							break
-						}
-						r.Status, r.Solver = "unsat", sp.name
-						if !two {
-							break
-						}
-						continue
-					}
-					if st == "sat" {
-						if r.Status == "unsat" {
-							r.Status = "error"
-							r.Output += fmt.Sprintf("solver disagreement: %s unsat, %s sat\n", r.Solver, sp.name)
-							break
-						}
-						r.Status, r.Solver, r.Model = "sat", sp.name, out
-						break
-					}
-					r.Output += fmt.Sprintf("[%s] %s\n", sp.name, firstLines(out, 3))
-					if r.ScriptQF != "" {
-						break // first solver undecided on a quantified context: try the relaxation next
-					}
-				}
-				if r.Status == "unknown" && r.ScriptQF != "" {
-					fileQ := filepath.Join(dir, fmt.Sprintf("o%d.qf.smt2", i))
-					os.WriteFile(fileQ, []byte(r.ScriptQF), 0644)
-					for _, sp := range []solverSpec{solvers[0], solvers[2]} {
-						st, out, ms := runSolver(sp, fileQ, sec)
-						total += ms
-						if st == "unsat" {
-							if r.Status == "unsat" {
-								r.Second = sp.name + "/qf"
-								break
-							}
-							r.Status, r.Solver = "unsat", sp.name+"/qf"
-							if !two {
-								break
-							}
-						} else if st == "sat" && r.Status != "unsat" {
-							r.Status, r.Solver, r.Model, r.Candidate = "sat", sp.name+"/qf", out, true
-							r.Output += "model from the relaxation without quantified assumptions (a candidate; trusted only if it replays)\n"
-							break
-						}
-					}
-					os.Remove(fileQ)
-					if r.Status == "unknown" || r.Candidate {
-						// the relaxation did not prove it: the other solvers get the full query; a candidate
-						// model from the relaxation is kept only if none of them decides
-						for _, sp := range solvers[1:] {
-							st, out, ms := runSolver(sp, file, sec)
-							total += ms
-							if st == "unsat" {
-								r.Status, r.Solver, r.Candidate, r.Model = "unsat", sp.name, false, ""
-								break
-							}
-							if st == "sat" {
-								r.Status, r.Solver, r.Model, r.Candidate = "sat", sp.name, out, false
-								break
-							}
-						}
-					}
-				}
-				if two && r.Status == "unsat" && r.Second == "" {
-					r.Status = "unknown"
-					r.Output += "no second solver confirmed unsat\n"
-				}
-				r.Ms = total
-				os.Remove(file)
+				solveOne(rs[i], dir, i, sec, two)
 			}
 		}()
 	}
